@@ -42,6 +42,20 @@ func TestC04(t *testing.T) {
 			}
 		}
 	}
+	// honest runs over the auth payload sizes around every buffer boundary, all version ranges:
+	// agreement on the payload is a clause of C04 also without an adversary
+	payloads := []int{-1, 0, 1, 497, 498, 499, 500, 501, 1000, 65535, 65536}
+	if thorough() {
+		payloads = append(payloads, 2, 255, 256, 496, 502, 514, 516, 517, 4096, 65534, 70000, 3<<20)
+	}
+	for _, vr := range versionRanges() {
+		for _, pl := range payloads {
+			cases = append(cases, &noiseCase{IMin: vr[0], IMax: vr[1], RMin: vr[2], RMax: vr[3], PwSame: true,
+				IExp: "-", RExp: "-", PayloadLen: pl})
+			cases = append(cases, &noiseCase{KK: true, IMin: vr[0], IMax: vr[1], RMin: vr[2], RMax: vr[3], PwSame: true,
+				IExp: "1", RExp: "1", PayloadLen: pl})
+		}
+	}
 	// every single-bit flip of every byte of every act
 	flipCfgs := [][5]int{{0, 2, 0, 2, 40}, {0, 0, 0, 0, 40}, {1, 1, 1, 1, 0}}
 	if thorough() {
@@ -90,6 +104,8 @@ func TestC04(t *testing.T) {
 	}
 	noiseRunAll(t, r, cases, func(nc *noiseCase) string {
 		switch {
+		case nc.BitFlip == nil && len(nc.Rules) == 0:
+			return fmt.Sprintf("honest/kk=%v/payload=%s", nc.KK, map[bool]string{true: "<=498", false: ">498"}[nc.PayloadLen <= 498])
 		case nc.BitFlip != nil:
 			return fmt.Sprintf("bit-flip/kk=%v/act%d", nc.KK, nc.BitFlip[0])
 		case len(nc.Rules) > 0 && nc.Rules[0].field == 0:
